@@ -51,7 +51,8 @@ Run(e) ==
 \* 13 + 48 + 6 + 10 = 77 T-states after the acknowledge, which starts within one HALT cycle (4 T) of the frame start
 HaltRun(e) ==
     LET wantInts == e.frames + B2(e.t0 < 32)
-        ok == e.ints = wantInts /\ e.iters = e.ints /\ e.t1 >= 77 /\ e.t1 <= 80
+        \* (a run that starts inside the INT pulse is interrupted once before it reaches its first HALT: that service wakes nothing)
+        ok == e.ints = wantInts /\ e.iters = e.frames /\ e.t1 >= 77 /\ e.t1 <= 80
     IN IF ok THEN bad' = bad
        ELSE /\ PrintT(<<"MISMATCH", l, e.tag, [m |-> m, ints |-> e.ints, iters |-> e.iters, frames |-> e.frames,
                                               t1 |-> e.t1, wantInts |-> wantInts]>>)
